@@ -9,14 +9,18 @@ use text_utils::unicode::Normalization;
 use text_utils::utils::SerializeMsgPack;
 
 const LETTERS: [&str; 4] = ["a", "b", "c", "d"];
+/// letters that NFKC rewrites (ligature fi -> f i, fullwidth f -> f) next to their targets: without a requested
+/// normalisation the corpus must be taken as it is
+const LETTERS_NFKC: [&str; 4] = ["\u{FB01}", "i", "\u{FF46}", "f"];
 
 pub fn exec(case: &Value) -> Vec<Value> {
     let words: Vec<String> = case["words"]
         .as_array()
         .unwrap()
         .iter()
-        .map(|w| w.as_array().unwrap().iter().map(|s| LETTERS[s.as_u64().unwrap() as usize - 1]).collect::<String>())
+        .map(|w| w.as_array().unwrap().iter().map(|s| if get_str(case, "alpha") == "nfkc" { LETTERS_NFKC } else { LETTERS }[s.as_u64().unwrap() as usize - 1]).collect::<String>())
         .collect();
+    let with_norm = get_bool(case, "norm");
     let freqs: Vec<usize> = case["freqs"].as_array().unwrap().iter().map(|x| x.as_u64().unwrap() as usize).collect();
     let num_merges = get_u(case, "num_merges");
     let per_line = get_u(case, "per_line").max(1);
@@ -34,6 +38,8 @@ pub fn exec(case: &Value) -> Vec<Value> {
     // the view of the corpus: whitespace-prefixed words and their counts
     let mut view: BTreeMap<Vec<u8>, usize> = BTreeMap::new();
     for l in &lines {
+        // what the trainer is asked to count: the line as it is, or its NFKC form when normalisation is requested
+        let l = if with_norm { text_utils::unicode::normalize(l, Normalization::NFKC, true) } else { l.clone() };
         for (i, w) in l.split(' ').enumerate() {
             let mut b = if i == 0 { vec![] } else { vec![b' '] };
             b.extend(w.as_bytes());
@@ -49,7 +55,7 @@ pub fn exec(case: &Value) -> Vec<Value> {
         let _ = std::fs::remove_file(&outp);
         std::fs::write(&inp, lines.iter().map(|l| format!("{l}\n")).collect::<String>()).unwrap();
         // vocab_size must be a multiple of 64: 320 - 256 - (64 - m) = m merges
-        let norm = if get_bool(case, "norm") { Some(Normalization::NFKC) } else { None };
+        let norm = if with_norm { Some(Normalization::NFKC) } else { None };
         let r = guard(|| train_bpe(&[&inp], 320, 64 - num_merges.min(64), &outp, None, norm, threads, false));
         quiet_panics(); // train_bpe installs its own (printing) panic hook
         let mut st = match r {
@@ -85,8 +91,9 @@ pub fn gen(seed: u64, n: usize) -> Vec<Value> {
             let words: Vec<Vec<u64>> = (0..nw).map(|_| (0..rng.random_range(1..=7)).map(|_| rng.random_range(1..=na)).collect()).collect();
             let freqs: Vec<usize> = (0..nw).map(|_| rng.random_range(1..=5)).collect();
             let th = [0, 1, 3][rng.random_range(0..3)];
+            let alpha = if rng.random_bool(0.3) { "nfkc" } else { "abcd" };
             json!({"words": words, "freqs": freqs, "num_merges": rng.random_range(0..=24), "per_line": rng.random_range(1..=3),
-                   "seed": rng.random::<u32>(), "threads": [th], "norm": rng.random_bool(0.5)})
+                   "seed": rng.random::<u32>(), "threads": [th], "norm": rng.random_bool(0.5), "alpha": alpha})
         })
         .collect()
 }
